@@ -12,7 +12,7 @@ func unhex(s string) []byte { b, _ := hex.DecodeString(s); return b }
 // RFC 9180 Appendix A.1.1 (AES-128-GCM) and A.2.1 (ChaCha20Poly1305), base mode.
 func TestRFC9180Vectors(t *testing.T) {
 	for _, v := range []struct {
-		aead                              uint16
+		aead                                 uint16
 		skEm, skRm, info, enc, aad0, ct0, pt string
 	}{
 		{AES128GCM,
